@@ -26,6 +26,14 @@ driver raises, or is passed over — patch 06, the current tree).
   - `copy_dump_eq`, `pickle_dump_eq` — the rebuilt circuit has the SAME dump, hence (`copy_pickle_same_function`) the
     same `s_nodes` names and order, the same gate-by-gate function (`evalLine`, `evalCaptures`) and the same anything
     else that is computed from the dump (`SimOps` program, levels, memory map).
+  - **`copy_trims`, `trim_wf_id`, `copy_wfNoTrail_same_function`** (Proofs/CopyTrim.lean; audit finding 5 b2) — `copy()` / pickle round
+    trip of a dump that is well-formed only up to trailing `None`s (`wfNoTrail`: the shape `substitute_sem_general` /
+    `resolve_sem_general` return; `copyNet` does change such a dump): the rebuilt circuit is the dump with the trailing `None`s of
+    every pin list trimmed (`trimNet`); it is `wf`, has the same names, kinds, lines, ports, `s_nodes` (names and order), every node
+    reads / drives the same lines at every pin and exactly the same labellings are consistent.  So resolve → copy / pickle →
+    eliminate chains in theorems: `resolve_sem_general` (result `wfNoTrail`) → `copy_wfNoTrail_same_function` (result `wf`, same
+    function) → `elim_sem` / `elim_sem_converse` / `elim_wf`.  (`elim_*` themselves are stated for `wf` inputs; by the above every
+    `wfNoTrail` dump is one `copy()` away from a `wf` dump with the same function.)
   - `elim_ports` — `eliminate_1to1_forks` keeps the port list with names and order;
     `elim_state_perm` — it keeps the flip-flops and the latches (kind and name) **up to order**; the full statement
     "names AND ORDER of the state elements are kept" is FALSE for the current tree: `elim_state_order_false`
@@ -34,7 +42,8 @@ driver raises, or is passed over — patch 06, the current tree).
     `elim_stable_snames`, `elim_stable_classes` — for the REPAIRED code (`elimForksStableIn` = the same loop followed by
     `_restore_node_order`, patch 03; the harness probes which behaviour the code under test shows) the full statement
     holds: `[n.name for n in c.s_nodes]` is unchanged, names and order, and so is every class of non-fork nodes.
-  - `elim_sem` — the FULL semantic statement for `eliminate_1to1_forks` (`elimForksIn`, the current tree's loop): the model
+  - `elim_sem` — the FORWARD semantic statement for `eliminate_1to1_forks` (`elimForksIn`, the current tree's loop; the converse is
+    `elim_sem_converse` below — audit finding 5: the earlier header called the forward direction "the full statement"): the model
     returns with the result the index maps `Ren` (`elimForksInM`; `elim_maps_same_circuit`: same circuit as `elimForksIn`);
     every consistent labelling of the lines (the gate-by-gate meaning of a netlist, Model/Net.lean / C01) under every
     assignment, restricted and renamed along the maps, is a consistent labelling of the result under the assignment
@@ -42,8 +51,15 @@ driver raises, or is passed over — patch 06, the current tree).
     kind, name, port list and `s_node` status and reaches every non-fork node.  `elim_sem_captures` — the same by `s_nodes`
     position (captured value, name, kind at position `p'` = those at position `sigma … p'` before).  `elim_one_sem` — the
     one-step (splice) lemma.  Extra hypothesis `NNet.forkIns1` (a fork has at most one input pin; without it a fork
-    reading its own output on a second pin would be spliced onto a removed node).  No uniqueness of the labelling is
-    needed; `evalCaptures_eq_capturesOf` connects `capturesOf` with the evaluator of the copy/pickle theorem.
+    reading its own output on a second pin would be spliced onto a removed node).  `evalCaptures_eq_capturesOf` connects `capturesOf` with the evaluator of the copy/pickle theorem.
+    **`elim_sem_converse`** (Proofs/TransformSem7.lean) — the CONVERSE and UNIQUENESS: every consistent labelling of the result (under
+    the permuted assignment) is `relabel` of a consistent labelling of the original (a removed fork is 1:1, the removed line carries
+    the value of the fork's in-line), and two consistent labellings of the original with the same `relabel` agree on every line:
+    `v ↦ relabel r nn' v z` is a bijection between the consistent labellings of `nn` and of `nn'` — no acyclicity needed.  Under
+    acyclicity (C01: the consistent labelling exists and is unique, it is the evaluator's) this gives `evalCaptures` of the result =
+    `evalCaptures` of the original permuted by `sigma` (from `elim_sem_captures`); not restated here.
+    **`elim_wf`** — the result is `wf` with `forkIns1`, so `copy_dump_eq` / `pickle_dump_eq` (`elim_then_copy`), `elim_*` again,
+    `substitute_*` and C01 apply to it: the theorems chain.  (A preserved topological order is not exported.)
     `elim_sem_partial` — the earlier local fact (the out-line of a non-port fork carries the value of its in-line).
   - `substitute_ports` — `substitute` keeps the port list, names and order (all cases, incl. removal of dangling logic);
     `substitute_state_perm` — the state elements of the result up to order, in all cases: those of the host with the
@@ -130,6 +146,19 @@ driver raises, or is passed over — patch 06, the current tree).
     that an earlier substitution removed at an output pin of a cell substituted later takes the value of that cell's
     implementation output: prescribed values of `SubstGenStmt`); (2) the converse.  By induction over the loop (`ResRelG`).
   - `resolve_ports` — `resolve_tlib_cells` (model `resolveCells`) keeps the port list, names and order, for every library.
+  - **Which part of "names and order of state elements are kept" is theorem:** ports — names AND order, for every transformation
+    (`copy_pickle_same_function`, `copy_wfNoTrail_same_function`, `elim_ports`, `substitute_ports`, `resolve_ports`); flip-flops and
+    latches — names and order for copy / pickle; for `eliminate_1to1_forks` and `substitute` only UP TO ORDER (`elim_state_perm`,
+    `substitute_state_perm`; order is kept in the documented case `substitute_snames` and by the repaired loop, `elim_stable_snames`;
+    `elim_state_order_false` is the kernel-checked counterexample = finding D29); for `resolve_tlib_cells` the state elements of the
+    result are those of the original that are no library cells plus the flip-flops/latches of the implementations
+    (`resolve_sem_general`: every such node survives with its name), but `s_nodes` of the UNRESOLVED circuit does not list a
+    library flip-flop whose kind name contains neither `dff` nor `latch` (finding D22) and node removal permutes `s_nodes` (D29): the
+    order after resolve is NOT a theorem and not true of the code; the harness reports both as KNOWN-FINDING.
+  - **Success of `substitute` / `resolve_tlib_cells`** (audit finding 6) is proved in Props/C10Library.lean: `substitute_isSome` (the
+    model returns a circuit under decidable static hypotheses — no hypothesis `… = some h'`), `remove_dangling_isSome` (the fuel
+    suffices), `library_impls_ok` (kernel sweep: all 263 implementation circuits of the five built-in libraries satisfy the
+    implementation-side hypotheses), `library_cell_resolves`, `resolve_step_isSome`, `resolve_isSome_of_genOK`.
 * **Correspondence** (harness/c10.py, differential, not proof): model dumps after copy / pickle round trip /
   `eliminate_1to1_forks` = dumps of the real objects on random circuits (both port styles, permuted node order,
   dictionary order of the forks different from the index order, forks without driver); the index maps of `elimForksInM` =
